@@ -115,6 +115,16 @@ def step(ctx, t, m, action, path):
     return True
 
 
+def expected_wire(injected, o):
+    """Where original id o has to end up: shifted up by the injected ids at or below it (fixed point)."""
+    w = o
+    while True:
+        w2 = o + sum(1 for i in injected if i <= w)
+        if w2 == w:
+            return w
+        w = w2
+
+
 def check_laws(ctx, t, m, path):
     """Evaluate the stated laws for every original id in range (read-only on the tracker)."""
     hi = m.next_orig + 3
@@ -129,7 +139,16 @@ def check_laws(ctx, t, m, path):
         except Exception as e:
             ctx.violation("translate-raises", "get_effective_id raised", dict(wit, orig=o, exc=repr(e)))
             continue
-        in_scope = w > horizon and (o not in m.first or m.first[o] > horizon)
+        # scope is decided by where the id SHOULD be (not by what the implementation answered): ids that belong above the
+        # newest aged-out injection are inside the statement
+        exp_w = expected_wire(m.injected, o)
+        in_scope = exp_w > horizon and (o not in m.first or m.first[o] > horizon)
+        if in_scope and w <= horizon:
+            ctx.violation("effective-id-below-aged-out-injection", "an id that belongs above every aged-out injection was translated "
+                          "to a wire id at or below one", dict(wit, orig=o, wire=w, expected=exp_w, horizon=horizon,
+                                                              injected=sorted(m.injected)))
+            prev_w = None
+            continue
         if not in_scope:
             prev_w = None
             continue
